@@ -45,6 +45,10 @@ def cases(tier):
                         for h in (0.1, 0.5):
                             for nz in (0, 2):
                                 yield {'d': d, 'form': form, 'dims': list(dims), 'inter': inter, 'fam': fam, 'r0': r0, 'h': h, 'nz': nz}
+                        # normalize=1 (Manhattan norm, documented for non-negative entries): rate-matrix generators with non-negative
+                        # off-diagonal entries and a non-negative state
+                        if fam == 'defective':
+                            yield {'d': d, 'form': form, 'dims': list(dims), 'inter': inter, 'fam': fam, 'r0': r0, 'h': 0.1, 'nz': 1}
                         # initial state of the OTHER dtype (real state under a complex generator and vice versa)
                         if fam != 'defective':
                             yield {'d': d, 'form': form, 'dims': list(dims), 'inter': inter, 'fam': fam, 'r0': r0, 'h': 0.1, 'nz': 0, 'xdt': 'other'}
@@ -205,7 +209,7 @@ def run_case(case, seed):
     xc = fam in ('complex', 'skew')
     if case.get('xdt') == 'other':
         xc = not xc
-    x0t = tt_from(rand_cores(rng, dims, [1] * d, rk, xc))
+    x0t = tt_from(rand_cores(rng, dims, [1] * d, rk, xc, 'nonneg' if nz == 1 else 'gauss'))
     x0t = (1.0 / x0t.norm()) * x0t
     x0 = vec(x0t)
     sX = snap(x0t)
@@ -236,7 +240,12 @@ def run_case(case, seed):
                 y = U @ want[-1]
                 if nz == 2:
                     y = y / np.linalg.norm(y)
+                if nz == 1:
+                    y = y / np.sum(y)
                 want.append(y)
+            if nz == 1 and any(np.min(np.real(w_)) < -1e-13 for w_ in want):
+                r.count('manhattan_skipped_negative_entries')      # substeps backwards in time left the non-negative cone: outside the documented domain
+                continue
             with r.op(key + ':call'):
                 sol = call(scheme, h, nsteps, nz)
                 if not r.true(key + ':length', isinstance(sol, list) and len(sol) == nsteps + 1, 'len %s' % (len(sol) if isinstance(sol, list) else type(sol))):
